@@ -229,7 +229,8 @@ class C20(Prop):
         files = [{"path": fpaths[i], "doc": docs[i]} for i in range(n)]
         # callback table
         cb = []
-        if mode == "callback":
+        use_cb = mode == "callback" or (mode == "disabled" and rng.chance(1, 2))
+        if use_cb:
             for i in range(n):
                 for c in docs[i].get("cs", []):
                     if "inc" in c and "_to" in c:
@@ -269,7 +270,7 @@ class C20(Prop):
         if rng.chance(1, 30):
             calls.append({"kind": "file", "path": "nosuchfile.yar", "ns": None})
         return {"mode": mode, "shape": shape, "cwd": cwd, "dirs": all_dirs, "files": files, "cb": cb, "calls": calls,
-                "scan": scan}
+                "scan": scan, "use_cb": use_cb}
 
     def generate(self, ctx, rng, n):
         return [self.gen_case(rng.fork("c%d" % i)) for i in range(n)]
@@ -296,18 +297,21 @@ class C20(Prop):
             os.makedirs(os.path.dirname(p), exist_ok=True)
             open(p, "wb").write(doc_bytes(f["doc"], root))
 
-    def cb_lookup(self, case, name, cur, ns):
+    def uses_cb(self, case):
+        return case["mode"] == "callback" or bool(case.get("use_cb"))
+
+    def cb_lookup(self, case, name, cur, ns, root):
         for e in case["cb"]:
-            if e["name"] != name:
+            if e["name"].replace(ROOT, root) != name:
                 continue
-            if not e["cur_any"] and e["cur"] != cur:
+            if not e["cur_any"] and (None if e["cur"] is None else e["cur"].replace(ROOT, root)) != cur:
                 continue
             if e["ns"] is not None and e["ns"] != ns:
                 continue
             return e
         return None
 
-    def flatten(self, case, root, doc, cur, depth, ns, parts):
+    def flatten(self, case, root, doc, cur, depth, ns, parts, log):
         """Textual inlining in document order; returns None when defined everywhere, else the error kind expected
         at the first place where it is not.  `cur` = None | ("raw", s) | ("canon", abs)."""
         if doc["t"] == "bad":
@@ -326,10 +330,11 @@ class C20(Prop):
             name = c["inc"].replace(ROOT, root)
             if case["mode"] == "callback":
                 cur_s = None if cur is None else cur[1]
-                e = self.cb_lookup(case, c["inc"], cur_s, ns or "default")
+                log.append([name, cur_s, ns or "default"])
+                e = self.cb_lookup(case, name, cur_s, ns or "default", root)
                 if e is None or e["doc"] is None:
                     return "invalid_include"
-                k = self.flatten(case, root, e["doc"], ("raw", c["inc"]), depth + 1, ns, parts)
+                k = self.flatten(case, root, e["doc"], ("raw", name), depth + 1, ns, parts, log)
             else:
                 if cur is None:
                     base = cwd_abs
@@ -349,17 +354,17 @@ class C20(Prop):
                 d2 = next((f["doc"] for f in case["files"] if f["path"] == rel), None)
                 if d2 is None:
                     raise RuntimeError("generated include escapes the case root: %s" % joined)
-                k = self.flatten(case, root, d2, ("canon", real), depth + 1, ns, parts)
+                k = self.flatten(case, root, d2, ("canon", real), depth + 1, ns, parts, log)
             if k:
                 return k
         return None
 
     def expected(self, case, root):
-        """per call: (inlined prefix text, expected kind after the prefix or None)"""
+        """per call: (inlined prefix text, expected kind after the prefix or None, expected callback invocations)"""
         out = []
         cwd_abs = os.path.join(root, *case["cwd"])
         for k in case["calls"]:
-            parts = []
+            parts, log = [], []
             if k["kind"] == "file":
                 p = os.path.join(cwd_abs, k["path"].replace(ROOT, root))
                 try:
@@ -369,16 +374,16 @@ class C20(Prop):
                 except OSError:
                     real, isdir = None, False
                 if real is None or isdir:
-                    out.append(("", "io"))
+                    out.append(("", "io", []))
                     continue
                 rel = os.path.relpath(real, root).split("/")
                 doc = next((f["doc"] for f in case["files"] if f["path"] == rel), None)
                 if doc is None:
                     raise RuntimeError("top-level path escapes the case root")
-                kind = self.flatten(case, root, doc, ("raw", k["path"].replace(ROOT, root)), 0, k["ns"], parts)
+                kind = self.flatten(case, root, doc, ("raw", k["path"].replace(ROOT, root)), 0, k["ns"], parts, log)
             else:
-                kind = self.flatten(case, root, k["doc"], None, 0, k["ns"], parts)
-            out.append(("".join(parts), kind))
+                kind = self.flatten(case, root, k["doc"], None, 0, k["ns"], parts, log)
+            out.append(("".join(parts), kind, log))
         return out
 
     def execute(self, ctx, cases):
@@ -401,7 +406,8 @@ class C20(Prop):
                    "cur": None if e["cur"] is None else e["cur"].replace(ROOT, root), "ns": e["ns"],
                    "text": None if e["doc"] is None else render_doc(e["doc"], root)} for e in c["cb"]]
             hc.append({"chdir": os.path.join(root, *c["cwd"]), "mode": c["mode"], "cb": cb, "calls": calls,
-                       "inline_calls": [{"text": t, "ns": k["ns"]} for (t, _), k in zip(exp, c["calls"])],
+                       "use_cb": self.uses_cb(c),
+                       "inline_calls": [{"text": t, "ns": k["ns"]} for (t, _, _), k in zip(exp, c["calls"])],
                        "scan_hex": c["scan"].encode().hex(), "wall_s": 30})
             ctx.count("mode=" + c["mode"])
             ctx.count("shape=" + c.get("shape", "corpus"))
@@ -411,7 +417,8 @@ class C20(Prop):
         for c, o, (root, exp) in zip(cases, outs, exps):
             if isinstance(o, dict):
                 o = dict(o)
-                o["expected"] = [k for _, k in exp]
+                o["expected"] = [k for _, k, _ in exp]
+                o["expected_logs"] = [l for _, _, l in exp]
                 o["root"] = root
                 impl = o.get("impl") or {}
                 for r in impl.get("results", []) if isinstance(impl, dict) else []:
@@ -477,7 +484,7 @@ class C20(Prop):
         scan = case["scan"]
         nodes = [gpair(self.g_path(d), "NDir") for d in case["dirs"]]
         nodes += [gpair(self.g_path(f["path"]), "(NFile %s)" % self.g_doc(f["doc"], scan)) for f in case["files"]]
-        if case["mode"] == "callback":
+        if self.uses_cb(case):
             ents = []
             for e in case["cb"]:
                 ents.append("{| cb_name := %s; cb_cur := %s; cb_ns := %s; cb_res := %s |}" % (
@@ -496,9 +503,19 @@ class C20(Prop):
                 calls.append("AddFile _ %s %s" % (gstr(k["path"].replace(ROOT, "")), ns))
             else:
                 calls.append("AddStr _ %s %s" % (self.g_doc(k["doc"], scan), ns))
-        return "C20_case %s %s %s %s %s" % (env, glist(calls), self.g_outcome(impl, out["root"]),
-                                            self.g_outcome(inl, out["root"]),
-                                            glist([self.g_kind(k) for k in out["expected"]]))
+        root = out["root"]
+
+        def g_log(l):
+            return glist([gpair(gstr(n.replace(root, "").replace(ROOT, "")),
+                                gopt(c, lambda v: gstr(v.replace(root, "").replace(ROOT, ""))), gstr(ns))
+                          for n, c, ns in l])
+        marks = [0] + list(impl.get("log_marks", []))
+        ilogs = [impl["log"][marks[i]:marks[i + 1]] for i in range(len(marks) - 1)]
+        return "C20_case %s %s %s %s %s %s %s" % (env, glist(calls), self.g_outcome(impl, root),
+                                                  self.g_outcome(inl, root),
+                                                  glist([self.g_kind(k) for k in out["expected"]]),
+                                                  glist([g_log(l) for l in ilogs]),
+                                                  glist([g_log(l) for l in out["expected_logs"]]))
 
     def nontrivial(self, case, out):
         has_inc = any("inc" in c for f in case["files"] for c in f["doc"].get("cs", [])) or \
